@@ -7,10 +7,10 @@ Str(b) == [i \in 1..Len(b) |-> b[i].k \o b[i].n]
 \* one line per finished body: the input and the rule's verdict (and the model's)
 EmitCase == phase = "end" =>
     PrintT(<<"CASE", ToJson([b |-> Str(body),
-                             e400 |-> SetToSeq(RuleE400(body)),
-                             clash |-> SetToSeq(RuleClashMembers(body)),
-                             nclash |-> Cardinality(RuleClashEarlier(body)),
-                             ok |-> RuleAccepts(body),
+                             e400 |-> SetToSeq(MRuleE400(body)),
+                             clash |-> SetToSeq(MRuleClashMembers(body)),
+                             nclash |-> Cardinality(MRuleClashEarlier(body)),
+                             ok |-> MRuleAccepts(body),
                              m400 |-> SetToSeq(alg.e400),
                              m420 |-> SetToSeq(alg.e420)])>>)
 ==========================================================================
